@@ -65,7 +65,11 @@ M = [
 
 
 def sh(cmd, cwd=None, timeout=3000, env=None):
-    p = subprocess.run(cmd, cwd=cwd, env=env or ENV, shell=True, capture_output=True, text=True, timeout=timeout)
+    try:
+        p = subprocess.run(cmd, cwd=cwd, env=env or ENV, shell=True, capture_output=True, text=True, timeout=timeout)
+    except subprocess.TimeoutExpired:
+        subprocess.run("pkill -f rapid.test", shell=True)
+        return 124, "TIMEOUT"
     return p.returncode, p.stdout + p.stderr
 
 
@@ -78,8 +82,11 @@ def main():
     for (mid, f, old, new, checks) in M:
         if pref and not any(mid.startswith(p) for p in pref):
             continue
+        if not pref and mid in results and "error" not in results[mid]:
+            continue
         shutil.rmtree(SCRATCH, ignore_errors=True)
-        shutil.copytree("/repo", SCRATCH, ignore=shutil.ignore_patterns(".git", "testdata"))
+        os.makedirs(SCRATCH)
+        subprocess.run("git -C /repo archive HEAD | tar -x -C %s" % SCRATCH, shell=True, check=True)
         src = open(os.path.join(SCRATCH, f)).read()
         if src.count(old) != 1:
             print(mid, "PATTERN NOT FOUND (count %d)" % src.count(old))
@@ -91,8 +98,8 @@ def main():
             print(mid, "DOES NOT COMPILE", out[-300:])
             results[mid] = {"error": "does not compile"}
             continue
-        rc, out = sh("go test -vet=off -count=1 ./... 2>&1 | tail -3", cwd=SCRATCH, timeout=600)
-        suite = "pass" if ("ok " in out and "FAIL" not in out) else "FAIL"
+        rc, out = sh("go test -vet=off -count=1 ./... 2>&1 | tail -3", cwd=SCRATCH, timeout=120)
+        suite = "pass" if ("ok " in out and "FAIL" not in out) else ("TIMEOUT" if out == "TIMEOUT" else "FAIL")
         res = {"file": f, "suite": suite, "checks": {}}
         for c in checks:
             t0 = time.time()
